@@ -389,3 +389,27 @@ type ackRec struct {
 }
 
 type leaderRec struct{ node, ev int }
+
+func init() {
+	// C08 fine mode: concurrent Apply/Apply/Barrier on a single-voter leader (group commit, FSM batches)
+	mk := func(fsm FSMKind, batchCh bool) func() *Scenario {
+		return func() *Scenario {
+			return &Scenario{Nodes: voters(1), FSM: fsm, Fine: true, Devs: 0, Horizon: 300,
+				Conf: func(i int, c *raft.Config) { c.MaxAppendEntries = 2; c.BatchApplyCh = batchCh },
+				Goal: func(w *World) bool { return w.vals["go"] == 1 && w.callsDone() },
+				Steps: []Step{
+					stepApplyLeader("apply0"),
+					stepDo("three-concurrent-calls", whenSettled, func(w *World) {
+						l := w.leader()
+						w.vals["go"] = 1
+						w.setFine(true)
+						w.apply(l, 0)
+						w.apply(l, 0)
+						w.barrier(l)
+					}),
+				}}
+		}
+	}
+	regScenario("apply-fine1", mk(FSMPlain, false))
+	regScenario("apply-fine1-batching", mk(FSMBatching, true))
+}
